@@ -429,11 +429,13 @@ def _c18(bindir, tier, seed):
     if tier == QUICK:
         jobs = shards(bindir, "holder_driver", "C18", seed, NCPU - 2, ["--level", "core", "--max-schedules", "8000"], 1200)
         jobs.append(miri_job("C18-miri-holder", "C18", "holder_stress", ["3", "2", "2", "3"], 16, seed, 1500))
+        jobs.append(native_stress_job("C18-native-stress", "C18", bindir, "holder_stress", ["20000", "2", "3", "6"], 600, runs=4))
         return jobs
     jobs = shards(bindir, "holder_driver", "C18", seed, NCPU, ["--level", "full", "--max-schedules", "400000"], 7200)
     for k in range(4):
         jobs.append(miri_job("C18-miri-holder-%d" % k, "C18", "holder_stress", [["4", "2", "2", "3"], ["3", "3", "2", "2"], ["3", "2", "3", "4"], ["6", "1", "3", "3"]][k], 64, seed + 17 * k, 7200))
     jobs.append(tsan_job("C18-tsan-holder", "C18", "holder_stress", ["2000", "2", "3", "6"], 3600, runs=10))
+    jobs.append(native_stress_job("C18-native-stress", "C18", bindir, "holder_stress", ["200000", "3", "3", "6"], 3600, runs=16))
     return jobs
 
 
@@ -598,3 +600,26 @@ def strace_job(name, prop, bindir, drv_args, timeout):
         return rep
 
     return Job(name, argv, timeout, parser=parse)
+
+
+def native_stress_job(name, prop, bindir, binname, prog_args, timeout, runs=4):
+    """Plain native runs of a stress program with its own value oracle (no sanitizer): exit 1 + ORACLE-FAILED line = violation."""
+    argv = ["/bin/sh", "-c", "for i in $(seq %d); do %s %s || echo EXIT=$?; done" % (runs, B(bindir, binname), " ".join(prog_args))]
+
+    def parse(job):
+        out = job.output
+        oks = [l for l in out.splitlines() if " ok " in l and binname in l]
+        rep = {"evaluations": len(oks), "distinct": ["native-%s-%s" % (binname, l.split(" ok ", 1)[-1]) for l in oks], "distinct_count": len(oks), "trivial": 0,
+               "samples": [{"native_stress": binname, "program_output": l} for l in oks[:1]], "violations": [], "violation_count": 0,
+               "obs": {"native_stress_runs_completed": len(oks)}, "notes": [], "inconclusive": []}
+        bad = [l for l in out.splitlines() if "ORACLE-FAILED" in l]
+        if bad:
+            rep["violations"].append({"property": prop, "rule": "value-oracle", "class": "oracle-failed-native-stress", "detail": bad[0][:400], "replay_args": [], "trace": {}})
+            rep["violation_count"] = 1
+        elif len(oks) < runs:
+            rep["inconclusive"].append("native stress %s completed %d of %d runs: %s" % (binname, len(oks), runs, out[-300:].replace("\n", " | ")))
+        return rep
+
+    j = Job(name, argv, timeout, parser=parse)
+    j.extra_bins = [binname]
+    return j
